@@ -106,6 +106,55 @@ PROPS["C12"] = {
     "expect_probes": ["lfq.node_recycled", "os.futex_wait_blocked"],
 }
 
+_LFHT_COMMON = ("2-5 threads on a cds_lfht bound to a seed-chosen flavor; table init 1/2/4, min_alloc 1/2, max 4..64 (512 for the mmap large-table path), flags 0/AUTO_RESIZE/ACCOUNTING/both, "
+                "allocators order/chunk/mmap/default and a counting custom cds_lfht_alloc; up to 3 active keys plus up to 2 resident keys whose hashes come from an adversarial pool "
+                "(0, ~0, top bit, equal modulo every small size, different keys with the same hash); partitioned resize threads enabled through the MIN_PARTITION knob; COUNT_COMMIT knob 1-2. ")
+PROPS["C05"] = {
+    "level": "exploration",
+    "scenarios": {"lfht_lin": {"quick": 150000, "thorough": 4000000, "thorough_time": 1200}},
+    "rule": "one evaluation = one seeded simulated execution: " + _LFHT_COMMON +
+            "Operations add/add_unique/add_replace/replace/del/lookup/duplicate walk/full traversal inside read-side sections, optional explicit resizer thread, lazy resizes. "
+            "Oracles: exact WGL check per key against a multiset-per-key model (non-deterministic results are relations); presence oracle on every walk/traversal "
+            "(visited nodes were present at some instant, nodes present throughout are visited, none twice); resident keys never absent; conservation and count_nodes at quiescence; tracked-arena use-after-free. "
+            "Non-trivial = operations of different threads on one key overlap; distinct = distinct event-log fingerprints.",
+    "assumptions": COMMON_ASSUME + ["hash-table operations are issued inside read-side sections of registered threads; removed nodes are reclaimed by their single owner after a grace period; cds_lfht_resize() is called outside sections (API contract)"],
+    "expect_probes": ["lfht.resize_returned", "os.futex_wait_blocked", "getcpu_migrate"],
+}
+PROPS["C06"] = {
+    "level": "exploration",
+    "scenarios": {"lfht_unique": {"quick": 150000, "thorough": 4000000, "thorough_time": 1200}},
+    "rule": "one evaluation = one seeded simulated execution: " + _LFHT_COMMON +
+            "Every key is touched only by add_unique/add_replace/replace/del while readers run lookup+next_duplicate walks and first/next traversals, with concurrent resizes. "
+            "Oracles: no walk or traversal ever returns two nodes of one key; WGL per key decides that exactly one concurrent add_unique wins and the others return a node present during their call, "
+            "that a continuously present key is never reported absent, and that each replaced node is handed to exactly one caller. "
+            "Non-trivial = operations of different threads on one key overlap; distinct = distinct event-log fingerprints.",
+    "assumptions": COMMON_ASSUME + ["hash-table operations are issued inside read-side sections of registered threads; removed nodes are reclaimed by their single owner after a grace period; cds_lfht_resize() is called outside sections (API contract)"],
+    "expect_probes": ["lfht.resize_returned"],
+}
+PROPS["C07"] = {
+    "level": "exploration",
+    "scenarios": {"lfht_owner": {"quick": 150000, "thorough": 4000000, "thorough_time": 1200}},
+    "rule": "one evaluation = one seeded simulated execution: " + _LFHT_COMMON +
+            "Threads aim del/replace/add_replace at the same nodes (lookup, pause, then remove) while others add, look up, traverse and resize in the same bucket. "
+            "Oracles: each node is obtained by exactly one call (two owners = immediate report; WGL set model makes every other del/replace fail); the owner frees the node through call_rcu or synchronize_rcu()+free "
+            "into a never-reused quarantine so any later access by any thread is reported; same for bucket memory released by shrink (tracked free / PROT_NONE for mmap) and the table after destroy. "
+            "Non-trivial = operations of different threads on one key overlap; distinct = distinct event-log fingerprints.",
+    "assumptions": COMMON_ASSUME + ["hash-table operations are issued inside read-side sections of registered threads; removed nodes are reclaimed by their single owner after a grace period; cds_lfht_resize() is called outside sections (API contract)"],
+    "expect_probes": ["lfht.resize_returned"],
+}
+PROPS["C09"] = {
+    "level": "exploration",
+    "scenarios": {"lfht_resize": {"quick": 120000, "thorough": 3000000, "thorough_time": 1200}},
+    "rule": "one evaluation = one seeded simulated execution: " + _LFHT_COMMON +
+            "One or two resizer threads request sizes from {0, 1, powers of two, 3/5/6/7/12, > max, ULONG_MAX, 2^40+1} while others update and look up; lazy resizes by chain length and node counter; "
+            "pthread_create EAGAIN in the partitioned helper and work-item allocation failure injected; destroy with resizes still queued. "
+            "Oracles: every cds_lfht_resize() returns (deadlock detector, bounded progress under fair scheduling), resident keys found by every lookup during and after, WGL per key, "
+            "custom allocator never asked for more buckets than max_nr_buckets, discarded bucket memory never touched (quarantine / PROT_NONE), destroy of the emptied table returns 0 and the deferred teardown touches no freed memory. "
+            "Non-trivial = operations of different threads on one key overlap; distinct = distinct event-log fingerprints.",
+    "assumptions": COMMON_ASSUME + ["hash-table operations are issued inside read-side sections of registered threads; removed nodes are reclaimed by their single owner after a grace period; cds_lfht_resize() is called outside sections (API contract)"] + ["the 1 <= buckets <= max bound is observed through allocator arguments and bucket memory accesses (the size field is private)"],
+    "expect_probes": ["lfht.resize_returned", "pthread_create_eagain", "getcpu_migrate"],
+}
+
 NOT_APPLICABLE = {}
 
 _SIM_NOTE = ("Trusted base: the usim runtime (scheduler, TSO model, simulated OS, tracked arena), gcc's access instrumentation, "
@@ -141,4 +190,16 @@ MANIFEST_TEXT = {
     "C12": {"design_ref": "3.12",
             "level_text": "Seeded exploration of concurrent enqueue/dequeue inside read-side sections on every flavor; exact WGL check against a FIFO model, dummy-node and reclamation oracles, destroy-iff-empty.",
             "level_note": _SIM_NOTE + " Histories are bounded to ~30 operations."},
+    "C05": {"design_ref": "3.5",
+            "level_text": "Seeded exploration of concurrent updates, lookups, walks, traversals and resizes on colliding hashes; exact WGL check per key plus a presence oracle for non-atomic walks.",
+            "level_note": _SIM_NOTE + " Histories are bounded (<= 48 ops per key)."},
+    "C06": {"design_ref": "3.6",
+            "level_text": "Seeded exploration with keys restricted to the unique-insert API and readers walking duplicates at any time; duplicate-exposure, unique-winner, continuous-presence and single-hand-over oracles.",
+            "level_note": _SIM_NOTE},
+    "C07": {"design_ref": "3.7",
+            "level_text": "Seeded exploration of competing removers/replacers of one node with reclamation into a never-reused quarantine; single-owner and no-access-after-grace-period oracles.",
+            "level_note": _SIM_NOTE},
+    "C09": {"design_ref": "3.9",
+            "level_text": "Seeded exploration of resize requests of every size class concurrent with updates, with thread-creation and allocation faults; termination, content preservation, bucket bounds and safe teardown oracles.",
+            "level_note": _SIM_NOTE},
 }
